@@ -1,7 +1,7 @@
 (* Props/C03.v -- CDTs stay constrained Delaunay: every free edge is locally Delaunay.
    Proved: the checker is the statement; the flip lemmas shared with C01.  Not proved: preservation by the CDT operations. *)
 From Coq Require Import ZArith List Bool Arith.
-From SpadeV Require Import Geom.Pred Geom.Lemmas Obs.State Obs.Spec Obs.SpecProp Obs.SpecProofs Dcel.Raw Dcel.WfCore Gen.DcelOps Tri.Legalize Tri.LegalizeProofs.
+From SpadeV Require Import Geom.Pred Geom.Lemmas Obs.State Obs.Spec Obs.SpecProp Obs.SpecProofs Dcel.Raw Dcel.WfCore Gen.DcelOps Tri.Legalize Tri.LegalizeProofs Tri.LegalizePotential.
 
 Theorem C03_checker_is_spec : forall s pts, cdtlocal_b s pts = true <-> CDTLocal s pts.
 Proof. exact cdtlocal_b_spec. Qed.
@@ -19,6 +19,19 @@ Theorem C03_legalize_respects_constraints : forall pts fuel fully d stack b d' b
   forall k, k < Raw.num_undirected_edges d -> nth k (d_flags d) false = true ->
     e_origin d' (2 * k) = e_origin d (2 * k) /\ e_origin d' (2 * k + 1) = e_origin d (2 * k + 1).
 Proof. exact legalize_never_flips_constraints. Qed.
+
+(* CDT legalization is total: with fuel above |stack| + 2 * dcel_pot (the lifted-paraboloid potential of the state, Tri/LegalizePotential.v)
+   the model returns, keeps every flag, moves no constraint edge and does not raise the potential *)
+Theorem C03_legalize_total_and_respects_constraints : forall pts fuel fully d stack b,
+  DWf d -> FacesCcw (obs_of_dcel d) pts -> (forall e, In e stack -> e < length (d_hedges d)) ->
+  (Z.of_nat (length stack) + 2 * dcel_pot pts d < Z.of_nat fuel)%Z ->
+  exists d' b', legalize pts fuel fully d stack b = Some (d', b') /\
+    d_flags d' = d_flags d /\
+    (forall k, k < Raw.num_undirected_edges d -> nth k (d_flags d) false = true ->
+       e_origin d' (2 * k) = e_origin d (2 * k) /\ e_origin d' (2 * k + 1) = e_origin d (2 * k + 1)) /\
+    (0 <= dcel_pot pts d' <= dcel_pot pts d)%Z.
+Proof. exact legalize_total_respects_constraints. Qed.
+Print Assumptions C03_legalize_total_and_respects_constraints.
 
 (* an edge is flipped only if it is free, has two inner faces and the opposite apex lies strictly inside the circumcircle *)
 Check legalize_flip_only_if_illegal.
